@@ -691,11 +691,12 @@ func (vm *VirtualMachine) eval(ctx context.Context) error {
 			}
 			for _, name := range names {
 				// check if the name matches a module
-				module, err := vm.importModule(ctx, filepath.Join(filepath.Join(from...), name))
+				subName := filepath.Join(filepath.Join(from...), name)
+				module, err := vm.importModule(ctx, subName)
 				var unavailable *moduleUnavailableError
 				if err == nil {
 					vm.push(module)
-				} else if !errors.As(err, &unavailable) {
+				} else if !errors.As(err, &unavailable) || unavailable.name != subName {
 					// the name is a module, and importing it failed
 					return err
 				} else {
@@ -1143,7 +1144,8 @@ func (vm *VirtualMachine) reloadCode(main *compiler.Code) *code {
 // moduleUnavailableError says that there is no module of the name to evaluate
 // (as opposed to a module whose evaluation failed).
 type moduleUnavailableError struct {
-	err error
+	name string
+	err  error
 }
 
 func (e *moduleUnavailableError) Error() string { return e.err.Error() }
@@ -1155,7 +1157,7 @@ func (vm *VirtualMachine) importModule(ctx context.Context, name string) (*objec
 		return module, nil
 	}
 	if vm.importer == nil {
-		return nil, &moduleUnavailableError{err: fmt.Errorf("imports are disabled")}
+		return nil, &moduleUnavailableError{name: name, err: fmt.Errorf("imports are disabled")}
 	}
 	// A module whose code is still being evaluated is not in the cache yet:
 	// importing it again would run its top-level code again, without end
@@ -1164,7 +1166,7 @@ func (vm *VirtualMachine) importModule(ctx context.Context, name string) (*objec
 	}
 	module, err := vm.importer.Import(ctx, name)
 	if err != nil {
-		return nil, &moduleUnavailableError{err: err}
+		return nil, &moduleUnavailableError{name: name, err: err}
 	}
 	if vm.importing == nil {
 		vm.importing = map[string]bool{}
